@@ -32,6 +32,8 @@ class PropCheck:
     props_file = "Props/C00.v"  # theorems of this property
     # development files whose compilation the property's proof depends on
     # (beyond what Props/Cxx.v imports, which make tracks itself)
+    # development files the generated cases files import (built with the property)
+    extra_targets: list[str] = []
     shard = 100
     quick_cases = 300
     thorough_cases = 3000
@@ -142,9 +144,12 @@ def run_check(pc: PropCheck, tier: str, seed: int) -> int:
         old.unlink()
 
     # ---------------- A/B: tie by translation + proofs
-    ok, log = common.coq_build(clean=(tier == "thorough" and os.environ.get("VERIF_CLEAN") == "1"))
+    ok, log = common.coq_build(clean=(tier == "thorough" and os.environ.get("VERIF_CLEAN") == "1"),
+                               targets=[pc.props_file] + list(pc.extra_targets))
     (workdir / "build.log").write_text(log)
     deps = deps_of(pc.props_file)
+    for t in pc.extra_targets:
+        deps |= deps_of(t)
     failed = [f for f in make_failures(log) if f in deps] if not ok else []
     if not ok and not failed:
         # something else in the development is broken; is our file built?
